@@ -2,7 +2,7 @@
 use super::{op_line, Gen};
 use crate::wire::data_of;
 
-pub const OPS: [&str; 52] = [
+pub const OPS: [&str; 54] = [
     "lcc lat_1=57 lon_0=12",
     "lcc lat_1=-33 lat_2=-45 lon_0=10",
     "omerc latc=55 lonc=12 alpha=30 gamma_c=30 k_0=0.9996",
@@ -55,6 +55,8 @@ pub const OPS: [&str; 52] = [
     "deflection grids=test.geoid,@null",
     "gridshift grids=5458_with_subgrid.gsb",
     "gridshift grids=5458_with_subgrid.gsb,test.datum inv",
+    "push v_1 v_2 | addone | pop v_2 v_1 v_3",
+    "push v_3 | pop v_3 v_4",
 ];
 
 /// a second deformation grid overlapping `test.deformation` (54-58 N, 8-16 E) in 56-58 N, 12-16 E, with
@@ -147,6 +149,8 @@ pub fn projected_set(g: &mut Gen, n: usize) -> Vec<[f64; 4]> {
             4 if !v.is_empty() => v[g.rng.below(v.len())],
             5 => [0.0, 0.0, 0.0, t],
             6 => [4321000.0, 3210000.0, 0.0, t],
+            7 if v.last().map(|p| p[0].is_finite()).unwrap_or(false) => [v[v.len() - 1][0], g.rng.uniform(-3.0e6, 8.0e6), 0.0, t],
+            8 if v.last().map(|p| p[1].is_finite()).unwrap_or(false) => [g.rng.uniform(-2.0e6, 5.0e6), v[v.len() - 1][1], 0.0, t],
             _ => [g.rng.uniform(-2.0e6, 5.0e6), g.rng.uniform(-3.0e6, 8.0e6), (g.rng.uniform(-100.0, 3000.0) * 100.0).round() / 100.0, t],
         };
         v.push(c);
@@ -171,6 +175,9 @@ pub fn mixed_set(g: &mut Gen, n: usize) -> Vec<[f64; 4]> {
             3 if !v.is_empty() => v[g.rng.below(v.len())], // duplicate
             4 => [0.0, 0.0, 0.0, t],
             5 => [12f64.to_radians(), 55f64.to_radians(), 100.0, t], // inside the test grids
+            // on the meridian / the parallel of the tuple before (one element shared bit for bit, the other not)
+            8 if v.last().map(|p| p[0].is_finite()).unwrap_or(false) => [v[v.len() - 1][0], g.rng.uniform(0.8, 1.1), 50.0, t],
+            9 if v.last().map(|p| p[1].is_finite()).unwrap_or(false) => [g.rng.uniform(0.05, 0.35), v[v.len() - 1][1], 50.0, t],
             _ => [
                 g.rng.uniform(0.05, 0.35),
                 g.rng.uniform(0.8, 1.1),
